@@ -221,8 +221,74 @@ func genCanonical(sz model.Size) func(t *rapid.T) harness.Case {
 	}
 }
 
+// nestedFirstLists: chains of lists in which each list is the first block of
+// the first item of the list around it, with every combination of four marker
+// kinds per level, to a depth of five, around each of seven innermost
+// contents (an empty item among them). The source puts each marker on a line
+// of its own (an item that begins with a blank line), which is unambiguous
+// whatever the markers are; the formatter has to decide which of them may
+// share a line ("- - -" would be a thematic break) and must arrive at a fixed
+// point that renders the same.
+func nestedFirstLists(t *testing.T, plan harness.Plan) {
+	const name = "nested_first_lists"
+	markers := []string{"-", "*", "+", "1."}
+	inner := []string{"", "a", "***", "---", "# h", "> q", "```\nc\n```"}
+	cfg := harness.Cfg()
+	shards := 1
+	if cfg.Tier == "thorough" {
+		shards = 16
+	}
+	n := 0
+	for depth := 1; depth <= 5; depth++ {
+		total := 1
+		for i := 0; i < depth; i++ {
+			total *= len(markers)
+		}
+		for k := 0; k < total; k++ {
+			for _, in := range inner {
+				n++
+				if n%shards != cfg.Shard%shards {
+					continue
+				}
+				var sb strings.Builder
+				indent, x := "", k
+				for i := 0; i < depth; i++ {
+					m := markers[x%len(markers)]
+					x /= len(markers)
+					last := i == depth-1
+					if last && in != "" && !strings.HasPrefix(in, "---") && !strings.HasPrefix(in, "***") {
+						// the innermost content follows its marker on the same line
+						sb.WriteString(indent + m + " " + strings.ReplaceAll(in, "\n", "\n"+indent+strings.Repeat(" ", len(m)+1)) + "\n")
+					} else {
+						sb.WriteString(indent + m + "\n")
+						if last && in != "" {
+							sb.WriteString(indent + strings.Repeat(" ", len(m)+1) + in + "\n")
+						}
+					}
+					indent += strings.Repeat(" ", len(m)+1)
+				}
+				c := harness.Case{In: []byte(sb.String())}
+				c.SetI("nontrivial", 1)
+				res := propRoundTrip(c)
+				harness.Count(name, &c, true, fmt.Sprintf("depth_%d", depth))
+				if res.Err != nil && harness.Fail(t, plan, name, c, res.Err) {
+					return
+				}
+			}
+		}
+	}
+	harness.SetExhaustive(name, fmt.Sprintf("%d documents: chains of 1-5 nested first-position lists x 4 marker kinds per level x 7 innermost contents", n))
+}
+
 func TestProperty(t *testing.T) {
-	harness.Run(t, harness.Plan{Prop: "C20", Suppress: findings.Suppressor("C20"), Checks: []harness.Check{
+	plan := plan()
+	plan.Checks = append(plan.Checks, harness.Check{Name: "nested_first_lists", Prop: propRoundTrip, Rule: "enumerated: chains of one to five lists, each the first block of the first item of the list around it, every combination of the markers - * + 1. per level, around seven innermost contents (nothing, text, two thematic breaks, a heading, a quote, a fenced block), written with every marker on a line of its own; the canonical round trip (same HTML after Format, Format of the result reproduces it)"})
+	plan.After = func(t *testing.T) { nestedFirstLists(t, plan) }
+	harness.Run(t, plan)
+}
+
+func plan() harness.Plan {
+	return harness.Plan{Prop: "C20", Suppress: findings.Suppressor("C20"), Checks: []harness.Check{
 		{Name: "total", Quick: 30000, Thorough: 400000, Gen: func(t *rapid.T) harness.Case {
 			c := harness.Case{In: gen.Doc().Draw(t, "in")}
 			c.SetI("koff", rapid.IntRange(0, 1000).Draw(t, "koff"))
@@ -232,5 +298,5 @@ func TestProperty(t *testing.T) {
 		{Name: "canonical", Quick: 30000, Thorough: 400000, Gen: genCanonical(model.Small), Prop: propRoundTrip,
 			Rule: "canonical-style documents (G4 with every serializer choice pinned except the marker characters the formatter copies through: bullet, ordered delimiter, emphasis character; supported construct set and restrictions r4, r5 of DESIGN.md; everything else unrestricted: multi-line inline constructs in containers, tight items with several blocks, empty items, titles, text, destinations): HTML(Parse(Format(Parse(d)))) equals HTML(Parse(d)) in the O3 form, and formatting the result again reproduces it byte for byte; non-trivial = container depth >= 2, a loose list, a reference link, or a code block with fence-like lines"},
 		{Name: "canonical_large", Quick: 3000, Thorough: 50000, Gen: genCanonical(model.Large), Prop: propRoundTrip, Rule: "larger size bounds: canonical-style round trip"},
-	}})
+	}}
 }
